@@ -44,7 +44,8 @@ LEVEL_TEXT = "proof"
 TECHNIQUE = "Lean 4 theorems over an executable model of escape.py + the stdlib algorithms it delegates to; differential correspondence on every run"
 
 ALPHA40 = list("&<>\"';#%+= /\\xX&amp;lt0279AFaf\t\n") + ["\xe9", "€", "\U0001f600", "\x00", "\x7f", "\x85", "�"]
-ALPHA40 = list(dict.fromkeys(ALPHA40))[:40]
+ALPHA40 = list(dict.fromkeys(ALPHA40 + ["q", "u", "o", "-", "1", "G"]))[:40]
+assert len(ALPHA40) == 40
 TEXT_PIECES = ["&", "<", ">", '"', "'", "&amp;", "&lt;", "&gt;", "&quot;", "&#x27;", "&#39;", ";", "#", "a", "b", "Z", "0", "9",
                " ", "\t", "\n", "\x0c", "\xe9", "\xff", "Ā", "€", "퟿", "", "�", "￾", "￿",
                "\U00010000", "\U0001f600", "\U0010ffff", "\x00", "\x0b", "\x1f", "\x7f", "\x80", "\x85", "\x9f", "</", "<\\/", "%", "+", "="]
